@@ -355,7 +355,10 @@ pub fn run_c11(chk: &Check, tier: Tier) {
         let out = xs::explore(&sys, &Limits::default());
         engine::record(chk, &sys, &out, None);
         if tier.thorough() && out.found.is_empty() {
-            let r = xs::sr::run(std::sync::Arc::new(c11_system("C11", c, Report { oracle: true, ..Default::default() }, vals, false)), xs::n_threads());
+            let plain = c11_system("C11", c, Report { oracle: true, ..Default::default() }, vals, false);
+            let xs_plain = xs::explore(&plain, &Limits { restoration_check: false, ..Default::default() });
+            let r = xs::sr::run(std::sync::Arc::new(plain), xs::n_threads());
+            let out = &xs_plain;
             chk.push("stateright_cross_check", json!({"channel": c, "xs_states": out.nodes.len(), "stateright_unique_states": r.unique_states, "stateright_violation": r.violation}));
             if r.unique_states != out.nodes.len() || r.violation {
                 chk.machinery_error(format!("stateright disagrees with xs on channel {}: {} vs {} states, violation={}", c, r.unique_states, out.nodes.len(), r.violation));
@@ -407,6 +410,27 @@ fn c10_message(chk: &Check, st: &ParameterNumberMessageScanner, si: usize, p: &P
     }
     let n = outs.len();
     let ok = n == enc.len() && outs[..n - 1].iter().all(|o| o.is_none()) && outs[n - 1] == Some(m);
+    if ok && si % 4 == 0 {
+        // "regardless of what the scanner was fed before" includes hundreds of earlier messages:
+        // the same encoding 300 more times on the same scanner, each must report the original
+        for round in 0..300u32 {
+            let mut last = None;
+            let mut early = false;
+            let k = real.iter().flatten().count();
+            for (i, sm) in real.iter().flatten().enumerate() {
+                let o = sc.feed(sm);
+                if i + 1 < k && o.is_some() {
+                    early = true;
+                }
+                last = o;
+            }
+            if early || last != Some(m) {
+                vio!(chk, "C10", "scanner-inverts-encoder", &format!("{:?}/repeated-message", p.kind), format!("c10rep|state{}|{:?}|{}", si, p, round),
+                    format!("prior scanner state {:?}; the encoding of {:?} fed {} times in a row: round {} returned {:?} on its last Control Change (early report: {})", st, p, round + 2, round + 2, last, early));
+                break;
+            }
+        }
+    }
     if !ok {
         let cls = if outs[..n.saturating_sub(1)].iter().any(|o| o.is_some()) { "early-report" } else if outs.last().map_or(true, |o| o.is_none()) { "missing-report" } else { "wrong-message" };
         vio!(chk, "C10", "scanner-inverts-encoder", &format!("{:?}/{}", p.kind, cls), format!("c10|state{}|{:?}", si, p),
